@@ -143,6 +143,12 @@ func (a *Action) Exec(bs map[string]interface{}) ExecResult {
 		case "no-events":
 			// what such an execution means is not documented: only totality is asserted
 			return ExecResult{Outcome: "unknown"}
+		case "same":
+			// returns the bindings it was given (none given: like returning null)
+			if bs == nil {
+				return ExecResult{Outcome: "null"}
+			}
+			return ExecResult{Outcome: "ok", Bs: CopyBs(bs)}
 		}
 	}
 	w := CopyBs(bs)
@@ -180,7 +186,7 @@ func (a *Action) Exec(bs map[string]interface{}) ExecResult {
 			return ExecResult{Outcome: "fail"}
 		case "retnull":
 			return ExecResult{Outcome: "null", Emitted: out}
-		case "retbad", "retarr", "retfn", "retdate":
+		case "retbad", "retarr", "retfn", "retdate", "retgetter":
 			return ExecResult{Outcome: "bad"}
 		case "tick":
 		}
@@ -239,6 +245,27 @@ func scalarEq(a, b interface{}) bool {
 	return false
 }
 
+// hasVarString: does the value contain a string that looks like a pattern variable?
+func hasVarString(x interface{}) bool {
+	switch v := x.(type) {
+	case string:
+		return isVar(v)
+	case map[string]interface{}:
+		for k, e := range v {
+			if isVar(k) || hasVarString(e) {
+				return true
+			}
+		}
+	case []interface{}:
+		for _, e := range v {
+			if hasVarString(e) {
+				return true
+			}
+		}
+	}
+	return false
+}
+
 // Match returns the extended bindings, or nil when the pattern does not match.
 func Match(pat, fact interface{}, bs map[string]interface{}) map[string]interface{} {
 	w := make(map[string]interface{}, len(bs)+2)
@@ -269,13 +296,14 @@ func matchInto(pat, fact interface{}, bs map[string]interface{}) bool {
 				// A structured value bound earlier is re-used as a pattern by the
 				// implementation (partial matching); the reference only knows the
 				// clear cases: identical values match, anything else is left open.
-				if Canon(bound) == Canon(fact) && !hasDuplicateScalars(bound) {
+				if Canon(bound) == Canon(fact) && !hasDuplicateScalars(bound) && !hasVarString(bound) {
 					return true
 				}
 				Uncertain = true
 				return false
 			}
-			return matchInto(bound, fact, bs)
+			// a bound scalar is a value - also a string that looks like a variable
+			return scalarEq(bound, fact)
 		}
 		bs[p] = fact
 		return true
